@@ -14,14 +14,16 @@ From V.proofs Require Import Shutdown_Proofs.
 Section Term.
 Variable cap : Z.
 Variable ucfg : bool.
+Variable daf : bool.
 
-Notation step := (Shutdown.step cap ucfg).
-Notation apply := (Shutdown.apply cap ucfg).
-Notation run_from := (Shutdown.run_from cap ucfg).
-Notation run := (Shutdown.run cap ucfg).
-Notation prompt_from := (Shutdown.prompt_from cap ucfg).
-Notation prompt := (Shutdown.prompt cap ucfg).
-Notation step_thread := (Shutdown.step_thread cap).
+Notation step := (Shutdown.step cap ucfg daf).
+Notation apply := (Shutdown.apply cap ucfg daf).
+Notation run_from := (Shutdown.run_from cap ucfg daf).
+Notation run := (Shutdown.run cap ucfg daf).
+Notation prompt_from := (Shutdown.prompt_from cap ucfg daf).
+Notation prompt := (Shutdown.prompt cap ucfg daf).
+Notation step_thread := (Shutdown.step_thread cap daf).
+Notation work_step := (Shutdown.work_step daf).
 Notation step_run := (Shutdown.step_run ucfg).
 
 Definition wf_pc (t : tid) (p : pc) : bool :=
@@ -52,7 +54,7 @@ Definition tl_ok (w : sw) (t : tid) (s : tstate) : Prop :=
   (t = MU -> forall f, s = TLive PWaitUn f -> w_ustop w = true) /\
   (t = SO -> so_pcs (pc_of w) = true -> busy s = true) /\
   (t = PU -> (pu_pcs (pc_of w) = true -> s <> TNone) /\
-             (s = TDone -> x_open (w_ch w) = true -> d_pufail (w_dat w) = true)).
+             (s = TDone -> x_open (w_ch w) = true -> d_pufail (w_dat w) = true /\ daf = false)).
 
 Record Inv2 (w : sw) : Prop := {
   i2_thr : forall t, tl_ok w t (thread w t);
@@ -124,7 +126,7 @@ Qed.
 Lemma inv2_exit w t :
   Inv2 w ->
   (t = SO -> o_open (w_ch w) = false) ->
-  (t = PU -> x_open (w_ch w) = true -> d_pufail (w_dat w) = true) ->
+  (t = PU -> x_open (w_ch w) = true -> d_pufail (w_dat w) = true /\ daf = false) ->
   Inv2 (exit_thread w t).
 Proof.
   intros H Hso Hpu. unfold exit_thread. apply inv2_set_cnt. apply inv2_set_thread; [exact H|].
@@ -251,7 +253,7 @@ Lemma inv2_set_pufail w : Inv2 w -> Inv2 (set_pufail w).
 Proof.
   intros H. destruct H as [Ht H1 H2 H3 H4 H5 H6 H7 H8 H9]. constructor; try assumption.
   intros t. destruct (Ht t) as (A & B & C & D & E). split; [exact A|]. split; [exact B|]. split; [exact C|]. split; [exact D|].
-  intros Hpu. destruct (E Hpu) as [E1 E2]. split; [exact E1|]. intros; reflexivity.
+  intros Hpu. destruct (E Hpu) as [E1 E2]. split; [exact E1|]. intros Hs Hx. destruct (E2 Hs Hx) as [_ Hd]. split; [reflexivity|exact Hd].
 Qed.
 
 
@@ -463,7 +465,7 @@ Qed.
 
 Lemma inv2_work_step w t f k w' : Inv2 w -> thread w t = TLive PWork f -> work_step w t f k = Some w' -> Inv2 w'.
 Proof.
-  intros H Et E. unfold work_step in E.
+  intros H Et E. unfold Shutdown.work_step in E.
   assert (Hprod : forall w'', match k, f with
       | KFail, _ => Some (fail_exit w t)
       | KCall, S f' => Some (set_thread (callback w t) t (TLive PWork f'))
@@ -490,9 +492,11 @@ Proof.
     all: try (simple_live H).
     pose proof (inv2_restart w H) as Hr. simple_live Hr.
   - (* PU *)
-    destruct k; injection E as <-.
-    all: try (pose proof (inv2_callback w PU H) as Hc; simple_live Hc).
-    apply inv2_exit; [apply inv2_set_pufail, inv2_request_stop, H|discriminate|intros; reflexivity].
+    pose proof (inv2_callback w PU H) as Hc.
+    pose proof (inv2_set_pufail _ (inv2_request_stop w H)) as Hf.
+    destruct k; destruct (d_pufail (w_dat w)); try destruct daf eqn:Ed; injection E as <-.
+    all: try (simple_live Hc). all: try (simple_live H). all: try (simple_live Hf).
+    apply inv2_exit; [exact Hf|discriminate|intros; split; [reflexivity|exact Ed]].
 Qed.
 
 Lemma inv2_consume w t c w' :
@@ -894,6 +898,21 @@ Proof.
 Qed.
 
 
+(* with the repaired consumer (it keeps draining after an error) no D26 state is reachable *)
+Lemma no_d26_daf w : daf = true -> Inv2 w -> d26_state cap w = false.
+Proof.
+  intros Hd H. unfold d26_state.
+  destruct (thread w PU) eqn:Et; try reflexivity.
+  destruct (ch_locked w CTx); [|reflexivity]. cbn [andb].
+  destruct (ch_open w CTx) eqn:Eo; [|reflexivity]. exfalso.
+  destruct (i2_thr w H PU) as (_ & _ & _ & _ & E). destruct (E eq_refl) as [_ E2].
+  destruct (E2 Et Eo) as [_ Hf]. congruence.
+Qed.
+
+Theorem progress_daf w :
+  daf = true -> Inv w -> Inv2 w -> 1 <= cap -> stopping w = true -> stopped w = false -> can_go w.
+Proof. intros Hd HI H Hc Hst Hs. apply progress; try assumption. apply no_d26_daf; assumption. Qed.
+
 (* ---------------------------------------------------------------------------------------------- *)
 (* the ranking function *)
 
@@ -986,7 +1005,7 @@ Proof.
   - (* PGate *)
     rewrite Hst in E. (apply some_inj in E; subst w'). rewrite rank_set_thread, Et. rk. destruct t; lia.
   - (* PWork *)
-    unfold work_step in E.
+    unfold Shutdown.work_step in E.
     assert (Hprod : forall w'', match k, f with
       | KFail, _ => Some (fail_exit w t)
       | KCall, S f' => Some (set_thread (callback w t) t (TLive PWork f'))
@@ -1018,9 +1037,13 @@ Proof.
     destruct t; try (apply Hprod; exact E).
     + (apply some_inj in E; subst w'). rewrite rank_set_thread.
       destruct k; rewrite ?thread_restart, ?rank_restart, Et; rk.
-    + destruct k; (apply some_inj in E; subst w').
+    + destruct k; destruct (d_pufail (w_dat w)); try destruct daf; (apply some_inj in E; subst w').
       all: try (rewrite rank_set_thread, rank_callback;
                 change (thread (callback w PU) PU) with (thread w PU); rewrite Et; rk).
+      all: try (rewrite rank_set_thread, Et; rk).
+      all: try (rewrite rank_set_thread, rank_set_pufail;
+                change (thread (set_pufail (request_stop w)) PU) with (thread (request_stop w) PU);
+                rewrite thread_request_stop, rank_request_stop, Et; rk).
       rewrite rank_exit, rank_set_pufail. change (thread (set_pufail (request_stop w)) PU) with (thread (request_stop w) PU).
       rewrite thread_request_stop, rank_request_stop, Et. lia.
   - (* PQOut *)
@@ -1129,7 +1152,7 @@ Proof.
   - destruct t; try discriminate. unfold read_step in E.
     destruct (w_conn w); splitifs E; try discriminate; apply some_inj in E; subst w'; ctl3.
   - destruct (stopping w); apply some_inj in E; subst w'; ctl3.
-  - unfold work_step, fail_exit, end_body, spawn_un in E.
+  - unfold Shutdown.work_step, fail_exit, end_body, spawn_un in E.
     destruct t, k, f; splitifs E; try discriminate; apply some_inj in E; subst w'; try ctl3.
     all: cbn [thread set_thread set_thr w_thr tget tset]; destruct (t_un (w_thr w)); ctl3.
   - unfold after_add in E. destruct (stopping w), t; apply some_inj in E; subst w'; ctl3.
@@ -1196,7 +1219,7 @@ Theorem stop_bounded_work : forall acts' w,
 Proof.
   induction acts' as [|a acts' IH]; intros w HI H Hst Hh Hp; [cbn; lia|].
   cbn in Hp. apply andb_true_iff in Hp. destruct Hp as [Hp1 Hp2].
-  pose proof (Inv_step cap ucfg w a HI Hp1) as HI'. pose proof (Inv2_step w a H) as H'.
+  pose proof (Inv_step cap ucfg daf w a HI Hp1) as HI'. pose proof (Inv2_step w a H) as H'.
   destruct (hard_stop_stable w a Hst Hh) as [Hst' Hh'].
   specialize (IH (apply w a) HI' H' Hst' Hh' Hp2).
   cbn [Shutdown.run_from fold_left effective injected]. fold (run_from (apply w a) acts').
@@ -1246,7 +1269,7 @@ Proof.
     pose proof (wf_of w MU p f H Et) as Hw.
     destruct p as [| | | | |c0|c0| |]; try destruct c0; try discriminate.
     + cbn in E. rewrite Hst in E. apply some_inj in E; subst w'. mud Et.
-    + unfold work_step, fail_exit, end_body in E. cbn in E.
+    + unfold Shutdown.work_step, fail_exit, end_body in E. cbn in E.
       destruct k, f as [|f']; apply some_inj in E; subst w'; try (mud Et).
       unfold spawn_un. destruct (thread (set_thread w MU (TLive PWork f')) UN); mud Et.
     + apply some_inj in E; subst w'. mud Et.
@@ -1271,7 +1294,7 @@ Proof.
   - destruct t; try discriminate. unfold read_step in E.
     destruct (w_conn w); splitifs E; try discriminate; apply some_inj in E; subst w'; fr R1 R2 Q1 Q2.
   - destruct t; try congruence; destruct (stopping w); apply some_inj in E; subst w'; fr R1 R2 Q1 Q2.
-  - unfold work_step, fail_exit, end_body in E.
+  - unfold Shutdown.work_step, fail_exit, end_body in E.
     destruct t; try congruence; destruct k, f; splitifs E; try discriminate; apply some_inj in E; subst w'; fr R1 R2 Q1 Q2.
   - unfold after_add in E. destruct t; try congruence; destruct (stopping w); apply some_inj in E; subst w'; fr R1 R2 Q1 Q2.
   - unfold after_add in E. destruct (ch_locked w c); [discriminate|].
